@@ -138,5 +138,26 @@ def expectedOps : List (String Ã— String Ã— Bool Ã— List String Ã— List String Ã
   ("CompositeOperationType", "Expression", true, ["expr", "state_types", "context"], [], 1)
 ]
 
+/-- decision logic of every `contract` method: (file, class, default tol, purity tests, argmax arguments) -/
+def expectedContractSites : List (String Ã— String Ã— String Ã— List String Ã— List String) := [
+  ("photon_weave/state/base_state.py", "BaseState", "1e-06", ["abs(x - 1) < tol"], ["jnp.abs(eigenvalues - 1) < tol"]),
+  ("photon_weave/state/composite_envelope.py", "ProductState", "1e-06", ["abs(x - 1) >= tol"], ["jnp.abs(eigenvalues - 1) < tol"]),
+  ("photon_weave/state/composite_envelope.py", "CompositeEnvelope", "none", [], []),
+  ("photon_weave/state/custom_state.py", "CustomState", "1e-06", ["abs(x - 1) < tol"], ["jnp.abs(eigenvalues - 1) < tol"]),
+  ("photon_weave/state/envelope.py", "Envelope", "1e-06", ["abs(x - 1) < tol"], ["jnp.abs(eigenvalues - 1) < tol"]),
+  ("photon_weave/state/fock.py", "Fock", "1e-06", ["abs(x - 1) < tol"], ["jnp.abs(eigenvalues - 1) < tol"]),
+  ("photon_weave/state/polarization.py", "Polarization", "1e-06", ["abs(x - 1) < tol"], ["jnp.abs(eigenvalues - 1) < tol", "jnp.allclose(self.state, jnp.array([[1], [0]]))", "jnp.allclose(self.state, jnp.array([[0], [1]]))", "jnp.allclose(self.state, jnp.array([[1 / jnp.sqrt(2)], [1j / jnp.sqrt(2)]]))", "jnp.allclose(self.state, jnp.array([[1 / jnp.sqrt(2)], [-1j / jnp.sqrt(2)]]))"])
+]
+
+/-- normalised source of `kraus_identity_check` -/
+def expectedKrausCheckSource : List String := ["tol=1e-06", "dim = operators[0].shape[0]", "identity_matrix = jnp.eye(dim)", "sum_kraus = sum((jnp.matmul(jnp.conjugate(K.T), K) for K in operators))", "return jnp.allclose(sum_kraus, identity_matrix, atol=tol).item()"]
+
+/-- a site that contracts density matrices: one purity test, one eigenvalue pick, the same symbol
+`tol` (default `1e-06`) in both -/
+def siteConsistent (site : String Ã— String Ã— String Ã— List String Ã— List String) : Bool :=
+  site.2.2.2.1 == [] && site.2.2.2.2 == [] ||
+  (site.2.2.1 == "1e-06" &&
+   (site.2.2.2.1 == ["abs(x - 1) < tol"] || site.2.2.2.1 == ["abs(x - 1) >= tol"]) &&
+   site.2.2.2.2.head? == some "jnp.abs(eigenvalues - 1) < tol")
 
 end PW.TablesSpec
